@@ -44,6 +44,9 @@ COMPONENTS = {
                  "successful / aborted first one; the configuration and the idle attempt counter of the objects of a live system through add-only accessors; "
                  "frames that decode but cannot be routed (harness/cmd/remoting/badrefs.go): the proxy injects well-formed envelopes whose sender / receiver reference "
                  "actor.NewRef rejects (no sender, bad port, bare IP, receiver path without '/', ...) between the frames of a healthy connection; "
+                 "invalid-length frame under every split (harness/cmd/remoting/oversize.go): a raw TCP peer writes [a][length prefix 4 MiB + 1, body of zeros][b][c] "
+                 "to a real system, once per split variant (everything in ONE write, prefix alone, two bytes of the prefix, prefix + 100 / 5000 body bytes, body end "
+                 "coalesced with b and c, whole oversize frame then b c; thorough adds 12 random cut points); monitors only; "
                  "listener retry (harness/cmd/remoting/acceptbackoff.go, beside the other scenarios): a system is started while the harness holds its port; after 3 "
                  "(thorough 6) failed attempts to listen the port is released: the system must listen by itself and receive from another system; the delays it logged "
                  "are checked against the intervals of Backoff.v's server_cfg (attempt numbers 0, 1, 2, ..: no reset between failures); "
@@ -129,7 +132,9 @@ PROPERTIES = {
                  "tier, exhaustively in the thorough tier), cut inside the handshake, refused dials, reset-after-accept, peer restart, injected undecodable / "
                  "invalid-length frames, unencodable and > 4 MiB messages, late delivery on an old connection, two peers (one refusing, one healthy with steady "
                  "traffic; monitors c14-no-dead-letter-after-limit with a real-time bound of max(15 s, 10 x nominal back-off sum), c14-retry-count, "
-                 "c14-healthy-peer-disturbed); injected envelopes with rejected sender / receiver references (m0 | BAD | m1 | BAD BAD | m2 ..: monitor "
+                 "c14-healthy-peer-disturbed); invalid-length frame coalesced with its body and the following frames / split at every interesting point (8 variants "
+                 "quick, 20 thorough): monitor c14-oversize-frame-desyncs-stream (the actor must receive a, b, c exactly once, in order, intact: a frame with an invalid "
+                 "length is skipped exactly and neither stops nor corrupts the frames behind it); injected envelopes with rejected sender / receiver references (m0 | BAD | m1 | BAD BAD | m2 ..: monitor "
                  "c14-unroutable-stops-stream: every message frame handed to the peer after such a frame must reach the actor; the case carries the table of what "
                  "actor.NewRef answered for the injected strings); back-off object: ~50 Next/Reset/GetAttempt sessions, ~450 Try runs and ~100 two-Try histories per "
                  "run, exact model cases (delays to the nanosecond) plus the monitors c14-backoff-attempts (fn failing every time is called exactly limit+1 times and "
